@@ -222,8 +222,8 @@ Proof. exact @copy_copy_lookup. Qed.
 Print Assumptions c10_copy_copy_lookup.
 
 (** A {% block %} rendered through {% extends %} (RenderContext.copy with
-    block_scope, after proposed_fixes/C10/0001): in the block's context a name
-    resolves as in the page at the block tag, with the [block] drop pushed ... *)
+    block_scope): in the block's fresh context a name resolves as in the page
+    at the block tag, with the [block] drop pushed. *)
 Theorem c10_block_lookup : forall (D : Type) (L : layers D) (ns : dict D) k,
   NoDup (keys (w_tg (l_world L))) ->
   st_lookup (ctx_copy_block (build L) ns) k =
@@ -232,21 +232,42 @@ Theorem c10_block_lookup : forall (D : Type) (L : layers D) (ns : dict D) k,
 Proof. exact @block_lookup. Qed.
 Print Assumptions c10_block_lookup.
 
-(** ... and a variable assigned IN the block comes after every block-scoped
-    binding that encloses the block in the page (for / tablerow / with
-    namespaces, the block drop) and before everything else of the page: the
-    documented order (block-scoped binding, then template-local) also holds on
-    this path. *)
-Theorem c10_block_assign_does_not_shadow_enclosing :
-  forall (D : Type) (L : layers D) (ns : dict D) k v k',
+(** The code as it is: what the block itself assigned is found FIRST — before
+    the block drop and before every binding of the page, the enclosing for /
+    with namespaces included; any other name resolves as in the fresh block
+    context. *)
+Theorem c10_block_assign_lookup_as_is : forall (D : Type) (L : layers D) (ns : dict D) k v k',
   NoDup (keys (w_tg (l_world L))) ->
   st_lookup (st_assign (ctx_copy_block (build L) ns) k v) k' =
-  match first_some (map (assoc k') (ns :: l_blocks L)) with
-  | Some x => Some x
-  | None => if str_eqb k' k then Some v else st_lookup (build L) k'
-  end.
-Proof. exact @block_assign_does_not_shadow_enclosing. Qed.
-Print Assumptions c10_block_assign_does_not_shadow_enclosing.
+  if str_eqb k' k then Some v
+  else spec_lookup (l_world L)
+         {| a_blocks := ns :: l_blocks L; a_locals := l_locals L; a_counters := l_counters L |} k'.
+Proof. exact @block_assign_lookup_as_is. Qed.
+Print Assumptions c10_block_assign_lookup_as_is.
+
+(** The documented order on this path ([block_assign_documented]: block-scoped
+    bindings that enclose the block first, THEN what the block assigned) is
+    REFUTED by the faithful model — known finding
+    block-assign-shadows-enclosing-binding-through-extends:
+      base  {% with x: 'v1' %}{% block b %}{% endblock %}{% endwith %}
+      child {% extends 'base' %}{% block b %}{% assign x = 'v2' %}{{ x }}{% endblock %}
+    prints v2 where the documented order gives v1 ... *)
+Theorem c10_block_assign_precedence_refuted :
+  exists (L : layers N) (ns : dict N) k v k',
+    NoDup (keys (w_tg (l_world L))) /\
+    st_lookup (st_assign (ctx_copy_block (build L) ns) k v) k' <> block_assign_documented L ns k v k'.
+Proof. exact block_assign_precedence_refuted. Qed.
+Print Assumptions c10_block_assign_precedence_refuted.
+
+(** ... and holds under the exact guard that excludes the defect: another name
+    is looked up, or no block scope enclosing the block (nor the block drop)
+    binds the assigned name. *)
+Theorem c10_block_assign_precedence_partial : forall (D : Type) (L : layers D) (ns : dict D) k v k',
+  NoDup (keys (w_tg (l_world L))) ->
+  k' <> k \/ first_some (map (assoc k) (ns :: l_blocks L)) = None ->
+  st_lookup (st_assign (ctx_copy_block (build L) ns) k v) k' = block_assign_documented L ns k v k'.
+Proof. exact @block_assign_precedence_partial. Qed.
+Print Assumptions c10_block_assign_precedence_partial.
 
 (** data_unchanged.  For ANY sequence of chain operations — raw pushes and
     pops included — from the construction over ANY caller data, completed or
